@@ -35,6 +35,11 @@ func VH_C07_ForgedValidatorLists() {
 	e := vhNewMirrorHS(keys, []uint64{1, 1}, 1, hs)
 
 	next := vkit.ValSetHS(vkit.Keys(1, n), []uint64{2, 3}, hs) // what the chain prescribes for height 2
+	if verifrt.Choose("next-set-unchanged", 2) == 1 {
+		// the usual case: the header carries the current set forward (same hashes twice)
+		next = e.vs
+		verifrt.Reach("next-set-is-the-current-set")
+	}
 	orig := tmconsensus.ProposedHeader{
 		Header: tmconsensus.Header{
 			Hash: []byte("A"), PrevBlockHash: []byte("g"), Height: 1,
@@ -53,7 +58,7 @@ func VH_C07_ForgedValidatorLists() {
 	case 1: // next set: a key replaced by the attacker's
 		f := next
 		evil := vkit.SymKey{Set: 6, ID: 6}
-		f.Validators = []tmconsensus.Validator{{PubKey: evil, Power: 2}, next.Validators[1]}
+		f.Validators = []tmconsensus.Validator{{PubKey: evil, Power: next.Validators[0].Power}, next.Validators[1]}
 		f.PubKeys = []gcrypto.PubKey{evil, next.PubKeys[1]}
 		forged.Header.NextValidatorSet = f
 	case 2: // current set: powers altered
